@@ -367,7 +367,7 @@ def gen_config(rng: random.Random, spec: dict, backend: str) -> dict:
                 re_opts["align_threshold"] = rng.choice([0, 64])
             if rng.random() < 0.5:
                 re_opts["max_workers"] = rng.choice([1, 2, 4])
-        cfg["resave"] = {"same_ext": rng.random() < 0.6, "opts": re_opts,
+        cfg["resave"] = {"same_ext": rng.random() < 0.6, "opts": re_opts, "fresh": rng.random() < 0.7,
                          "backend": backend if rng.random() < 0.8 else ("st" if backend == "raw" else "raw")}
     return cfg
 
@@ -476,8 +476,6 @@ def build(spec: dict, cfg: dict, base_dir: str) -> Built:
                 blob += rng.randbytes(rng.choice([0, 0, 1, 3, 16, 100]))
             ext_pos[s["obj"]] = (rel, None if whole else len(blob), None if whole else len(data))
             blob += data
-        if not whole:
-            blob += rng.randbytes(rng.choice([0, 0, 5]))
         with open(path, "wb") as f:
             f.write(bytes(blob))
 
